@@ -66,6 +66,7 @@ static CO_ERR COTParaRestoreRead(struct CO_OBJ_T *obj, struct CO_NODE_T *node, v
     const CO_OBJ_TYPE *uint8 = CO_TUNSIGNED8;
     CO_ERR   result;
     CO_PARA *pg;
+    uint32_t value;
 
     ASSERT_PTR_ERR(obj, CO_ERR_BAD_ARG);
     ASSERT_PTR_ERR(buffer, CO_ERR_BAD_ARG);
@@ -77,10 +78,11 @@ static CO_ERR COTParaRestoreRead(struct CO_OBJ_T *obj, struct CO_NODE_T *node, v
         ASSERT_EQU_ERR(size, COT_ENTRY_SIZE, CO_ERR_BAD_ARG);
         pg = (CO_PARA *)(obj->Data);
         if (pg->Default != NULL) {
-            *(uint32_t *)buffer = (uint32_t)1;
+            value = (uint32_t)1;
         } else {
-            *(uint32_t *)buffer = (uint32_t)0;
+            value = (uint32_t)0;
         }
+        CO_BUF_SET(buffer, value);
         result = CO_ERR_NONE;        
     }
     return (result);
@@ -106,7 +108,7 @@ static CO_ERR COTParaRestoreWrite(struct CO_OBJ_T *obj, struct CO_NODE_T *node, 
     } else {
         /* check restore signature */
         ASSERT_EQU_ERR(size, COT_ENTRY_SIZE, CO_ERR_BAD_ARG);
-        value = *((uint32_t *)buffer);
+        CO_BUF_GET(value, buffer);
         if (value != CO_PARA_RESTORE_SIG) {
             return (CO_ERR_TYPE_WR);
         }
